@@ -261,6 +261,17 @@ def run(ctx):
     for _, cname, m in P.all_mutators():
         display[str(m)] = cname
         display['(global) ' + str(m)] = cname
+
+    import re as _re
+
+    class _Names(dict):
+        # task names carry run-time parameters, e.g. 'substitute by existing variable (inc)', 'erase node (assert)'
+        def get(self, name, default=None):
+            for cand in (name, _re.sub(r' \([^()]*\)$', '', name)):
+                if cand in self:
+                    return self[cand]
+            return default
+    display = _Names(display)
     for cls in instances.classes():
         for _ in range(3 if ctx.thorough else 1):
             r_ = instances.make(rng, cls)
@@ -311,7 +322,22 @@ def run(ctx):
                 if chain is not None:
                     break
             classes_ = sorted(set(display.get(n, n) for n in (chain or names[-3:])))
-            ctx.violation('impl-violation', finding_key='cycle:' + '+'.join(classes_), input=j['text'], options=j['opts'], command=j['cmd'], env=j['env'],
+            keys = ['cycle:' + '+'.join(classes_)]
+            known_cycles = [k['key'] for k in ctx.known if k['key'].startswith('cycle:')]
+            if keys[0] not in known_cycles:
+                # a closed walk may interleave several independent known cycles (at different positions of the input): it is
+                # explained by them if their mutator sets together are exactly the mutators of the walk
+                import itertools
+                for r_ in range(2, len(known_cycles) + 1):
+                    for combo in itertools.combinations(known_cycles, r_):
+                        if set().union(*[set(k[6:].split('+')) for k in combo]) == set(classes_):
+                            keys = list(combo)
+                            break
+                    if len(keys) > 1:
+                        break
+            for key_ in keys[:-1]:
+                ctx.violation('impl-violation', finding_key=key_, input=j['text'], options=j['opts'], command=j['cmd'], observed='(part of an interleaved closed walk)')
+            ctx.violation('impl-violation', finding_key=keys[-1], input=j['text'], options=j['opts'], command=j['cmd'], env=j['env'],
                           chain=[display.get(n, n) for n in (chain or [])],
                           observed='an input was visited twice during one run (--check-loops) through ' + ' -> '.join(display.get(n, n) for n in (chain or ['?'])),
                           expected='no input is visited twice')
